@@ -10,8 +10,8 @@ def m(name,file,checks,old=None,new=None,edits=None):
     M.append(d)
 # --- channel.rs
 m("vh2-store-before-sigcheck",CH,["C10","C01"],
-  "        #[cfg(not(fuzzing))]\n        self.check_holder_tx_signatures(\n            &per_commitment_point,\n            &txkeys,\n            feerate_per_kw,\n            counterparty_commit_sig,\n            counterparty_htlc_sigs,\n            recomposed_tx,\n        )?;\n\n        #[cfg(fuzzing)]\n        let _ = recomposed_tx;\n\n        let outgoing_payment_summary = self.enforcement_state.payments_summary(Some(&info2), None);\n        state.validate_payments(",
-  "        if commitment_number == self.enforcement_state.next_holder_commit_num {\n            self.enforcement_state.next_holder_commit_info = Some((info2.clone(), CommitmentSignatures(counterparty_commit_sig.clone(), counterparty_htlc_sigs.to_vec())));\n        }\n        #[cfg(not(fuzzing))]\n        self.check_holder_tx_signatures(\n            &per_commitment_point,\n            &txkeys,\n            feerate_per_kw,\n            counterparty_commit_sig,\n            counterparty_htlc_sigs,\n            recomposed_tx,\n        )?;\n\n        #[cfg(fuzzing)]\n        let _ = recomposed_tx;\n\n        let outgoing_payment_summary = self.enforcement_state.payments_summary(Some(&info2), None);\n        state.validate_payments(")
+  "            to_holder_value_sat,\n            to_counterparty_value_sat,\n            htlcs,\n        );\n\n        #[cfg(not(fuzzing))]\n        self.check_holder_tx_signatures(",
+  "            to_holder_value_sat,\n            to_counterparty_value_sat,\n            htlcs,\n        );\n        if commitment_number == self.enforcement_state.next_holder_commit_num {\n            self.enforcement_state.next_holder_commit_info = Some((info2.clone(), CommitmentSignatures(counterparty_commit_sig.clone(), counterparty_htlc_sigs.to_vec())));\n        }\n\n        #[cfg(not(fuzzing))]\n        self.check_holder_tx_signatures(")
 m("rv-clear-before-validate-payments",CH,["C10","C06"],edits=[
   ("        )?;\n        self.enforcement_state.next_holder_commit_info = None;\n","        )?;\n"),
   ("        // Other channels may have changed the node's in-flight payments since this\n","        self.enforcement_state.next_holder_commit_info = None;\n        // Other channels may have changed the node's in-flight payments since this\n")])
